@@ -27,7 +27,9 @@ The oracle is three-valued: it demands only what the property sentence says
 1/1, an absent single lookup gives None).  See ``run`` -> ctx.assumptions for
 what is deliberately left unconstrained.
 """
+import gc
 import hashlib
+import os
 
 from mc import refs
 
@@ -102,8 +104,36 @@ def m_init():
     return (None, None, None)
 
 
-def m_enabled(state, third=True):
-    """Menu, simplest first. third=False: the third session (T,S2) may not be opened (deepest thorough level)."""
+# file-backed variant (mode 2): the mirror pair only, a smaller alphabet, plus `reopen`
+F_NUMS = [1, 3, 7]
+F_VALS = [None, 1, 3]
+MEM3, MEM2, FILE2 = 0, 1, 2
+
+
+def m_enabled(state, mode=MEM3):
+    """Menu, simplest first. mode MEM2: the third session (T,S2) may not be opened (deepest thorough level);
+    FILE2: file-backed journal, mirror pair, reduced alphabet, `reopen` enabled."""
+    if mode is True:
+        mode = MEM3
+    elif mode is False:
+        mode = MEM2
+    if mode == FILE2:
+        ops = [("open", 0), ("open", 1), ("list",), ("reopen",)]
+        for si in range(2):
+            if state[si] is None:
+                continue
+            for n in F_NUMS:
+                for d in (OUT, IN):
+                    ops.append(("store", si, d, n, 0))
+        for kind in ("set", "sseq"):
+            for si in range(2):
+                if state[si] is None:
+                    continue
+                for o in F_VALS:
+                    for i in F_VALS:
+                        ops.append((kind, si, o, i))
+        return ops
+    third = mode == MEM3
     ops = [("open", 0), ("open", 1), ("open", 2), ("list",)] if third else [("open", 0), ("open", 1), ("list",)]
     for si in range(3):
         if state[si] is None:
@@ -139,6 +169,10 @@ def m_step(state, op):
         return state, {"cls": "open_existing"}
     if kind == "list":
         return state, {"cls": "list"}
+    if kind == "reopen":
+        # dropping the Journaler and opening the same file again changes nothing
+        low = any(s is not None and any(k[1] >= (s[0] if k[0] == OUT else s[1]) for k, _ in s[2]) for s in st)
+        return state, {"cls": "reopen", "cause": "counter_not_above_highest_stored_number" if low else "counters_above_all_stored_numbers"}
     if kind == "store":
         _, si, d, n, v = op
         o, i, ms = st[si]
@@ -209,6 +243,8 @@ def m_pending(pending, op, info):
         return pending | {("set", op[1])}
     if c == "sseq":
         return pending | {("sseq", op[1])}
+    if c == "reopen":
+        return frozenset({("reopened",)})  # a fresh connection: keep exploring behind the reopen
     return pending
 
 
@@ -216,18 +252,30 @@ def m_pending(pending, op, info):
 class Real:
     """Thin driver around one real Journaler; counts public-method calls."""
 
-    def __init__(self, names):
+    def __init__(self, names, path=None):
         from asyncfix.journaler import Journaler
         from asyncfix.message import MessageDirection
         from asyncfix.errors import DuplicateSeqNoError
 
-        self.j = Journaler()
+        self.J = Journaler
+        self.path = path
+        self.j = Journaler(path)
         self.names = names
         self.sids = session_ids(names)
         self.D = {IN: MessageDirection.INBOUND, OUT: MessageDirection.OUTBOUND}
         self.Dup = DuplicateSeqNoError
         self.calls = 0
         self.dup_left_txn = 0
+
+    def drop(self):
+        self.j = None
+        gc.collect()
+        if self.path:
+            for suffix in ("", "-journal", "-wal", "-shm"):
+                try:
+                    os.unlink(self.path + suffix)
+                except OSError:
+                    pass
 
     def load(self, si):
         self.calls += 1
@@ -244,6 +292,13 @@ class Real:
             if kind == "list":
                 self.calls += 1
                 return ("ok", self.j.sessions())
+            if kind == "reopen":
+                # never close explicitly: drop the object (its __del__ closes), collect, open the same file
+                self.calls += 1
+                self.j = None
+                gc.collect()
+                self.j = self.J(self.path)
+                return ("ok", None)
             if kind == "store":
                 _, si, d, n, v = op
                 h = self.load(si)
@@ -313,6 +368,8 @@ def _opclause(info):
         return "set_counters", CL_SET
     if c == "sseq":
         return "store_seq_num", CL_SSEQ
+    if c == "reopen":
+        return "reopen", CL_MAP + " - re-opening the journal file changes nothing (storing n makes n+1 the next number; every way of loading reports the same numbers)"
     return "load", CL_MAP  # open / list must not change anything that exists
 
 
@@ -400,6 +457,9 @@ def observe(real, state, op, info, full, J):
                     else:
                         what = "next_%s_wrong:%s" % (DNAME[dn], "explicit" if info["explicit"][dn] else "kept")
                     J.add("%s|%s" % (tag, what), oclause + " (as reported by loading the session by CompIDs)",
+                          {"op": op, "session": (t, s), "counter": "next_" + DNAME[dn], "got": got, "expected": exp})
+                elif op[0] == "reopen":
+                    J.add("reopen|next_%s_changed:%s" % (DNAME[dn], info["cause"]), oclause,
                           {"op": op, "session": (t, s), "counter": "next_" + DNAME[dn], "got": got, "expected": exp})
                 else:
                     J.add("%s|counter_of_%s_session_changed:next_%s" % (tag, "same" if op_si == si else "another", DNAME[dn]),
@@ -648,14 +708,27 @@ def _check_all(real, state, handles, exist, sfilter, dfilter, fclass, J, by_key=
 
 
 # --------------------------------------------------------------------------- one case
-def run_case(names, ops, full=True):
+_TMP = {"dir": None, "n": 0}
+
+
+def _path():
+    _TMP["n"] += 1
+    return os.path.join(_TMP["dir"], "j%d_%d.store" % (os.getpid(), _TMP["n"]))
+
+
+def run_case(names, ops, full=True, filemode=False):
     """Replay ops[:-1] on a fresh real Journaler, apply ops[-1], judge. -> (violations, stats)"""
     names = tuple(names)
     ops = [tuple(o) for o in ops]
     rev = _REV.get(names)
     if rev is None:
         rev = _REV[names] = all_payloads(names)
-    real = Real(names)
+    own_tmp = None
+    if filemode and _TMP["dir"] is None:  # replay outside the explorer
+        from mc.world import TmpDir
+        own_tmp = TmpDir()
+        _TMP["dir"] = own_tmp.path
+    real = Real(names, _path() if filemode else None)
     state = m_init()
     for op in ops[:-1]:
         state, _ = m_step(state, op)
@@ -669,12 +742,14 @@ def run_case(names, ops, full=True):
     if len(ops) > 1 and any(not x[0].startswith(PATHS_ONLY) for x in J.v):
         # Attribute a divergence to the FIRST operation that causes it: if the state before the last
         # operation already differs from the model, the prefix (itself an explored transition) reports it.
-        pre = Real(names)
+        pre = Real(names, _path() if filemode else None)
         for op in ops[:-1]:
             pre.apply(op)
         J0 = Judge(names, rev)
         observe(pre, state, ("list",), {"cls": "list"}, False, J0)
         real.calls += pre.calls
+        if filemode:
+            pre.drop()
         if any(not x[0].startswith(PATHS_ONLY) for x in J0.v):
             tainted = 1
             J.v = [x for x in J.v if x[0].startswith(PATHS_ONLY)]
@@ -682,7 +757,13 @@ def run_case(names, ops, full=True):
     for sig, clause, detail in J.v:
         out.append({"signature": sig, "clause": clause,
                     "detail": dict(detail, sequence=[list(o) for o in ops]),
-                    "replay": {"names": list(names), "ops": [list(o) for o in ops], "full": bool(full)}})
+                    "replay": {"names": list(names), "ops": [list(o) for o in ops], "full": bool(full),
+                               "file": bool(filemode)}})
+    if filemode:
+        real.drop()
+        if own_tmp is not None:
+            own_tmp.cleanup()
+            _TMP["dir"] = None
     nontrivial = _nontrivial(info)
     return out, (real.calls, J.evals, J.outcomes, real.dup_left_txn, nontrivial, tainted)
 
@@ -701,6 +782,8 @@ def _nontrivial(info):
         return info["removed"] > 0 and info["kept"] > 0
     if c == "sseq":
         return info["above"] > 0  # counters stored below existing rows
+    if c == "reopen":
+        return info["cause"] == "counter_not_above_highest_stored_number"
     return False
 
 
@@ -711,16 +794,19 @@ FULL_ALL = True
 
 def _expand(item):
     """item = (parent op sequence, indices of enabled ops whose successor state is new)."""
-    seq, newidx, third = item
+    seq, newidx, mode = item
+    if mode == FILE2 and not _TMP.get("frozen"):
+        gc.freeze()  # makes the gc.collect() after every dropped Journaler cheap in this worker
+        _TMP["frozen"] = True
     state = m_init()
     for op in seq:
         state, _ = m_step(state, op)
     viol = {}
     calls = evals = txn = nontriv = n = taint = 0
     outcomes = set()
-    for idx, op in enumerate(m_enabled(state, third)):
+    for idx, op in enumerate(m_enabled(state, mode)):
         full = FULL_ALL or idx in newidx
-        vs, (c, e, oc, t, nt, tn) = run_case(NAMES, list(seq) + [op], full)
+        vs, (c, e, oc, t, nt, tn) = run_case(NAMES, list(seq) + [op], full, mode == FILE2)
         taint += tn
         n += 1
         calls += c
@@ -756,7 +842,11 @@ def run(ctx):
                 "(full observation) all range queries on an 8x8 int bound grid + 8 digit-string/mixed pairs, 7 single lookups "
                 "and get_all_msgs with 7 filter shapes are compared with the model. non-trivial = duplicate store, store of a "
                 "number that exists in another direction/session or lies below the counter, a set that removes some and "
-                "keeps some messages, or a store_seq_num below existing rows")
+                "keeps some messages, a store_seq_num below existing rows, or a reopen while a counter is not above the "
+                "highest stored number. SECOND, separate BFS (depth %d, same dedup key, full observation): FILE-backed journal "
+                "(temporary directory, /dev/shm preferred), mirror pair only, n in {1,3,7}, one payload, set_seq_num / "
+                "store_seq_num values {None,1,3}^2, plus `reopen` = drop the Journaler object, gc.collect(), open the same "
+                "file again; model: reopen changes nothing" % (4 if ctx.quick else 5))
     seen = {m_key(m_init())}
     level = [((), m_init(), frozenset())]
     tot = dict(tr=0, calls=0, evals=0, txn=0, nontriv=0, taint=0)
@@ -780,7 +870,7 @@ def run(ctx):
         nxt = []
         for seq, state, pend in level:
             newidx = []
-            for idx, op in enumerate(m_enabled(state, third)):
+            for idx, op in enumerate(m_enabled(state, MEM3 if third else MEM2)):
                 s2, inf = m_step(state, op)
                 p2 = m_pending(pend, op, inf)
                 k = m_key(s2, p2)
@@ -789,7 +879,7 @@ def run(ctx):
                     newidx.append(idx)
                     if dpt < depth:
                         nxt.append((seq + (op,), s2, p2))
-            items.append((seq, frozenset(newidx), third))
+            items.append((seq, frozenset(newidx), MEM3 if third else MEM2))
         res = ctx.pmap(_expand, items, chunk=max(1, min(64, len(items) // (ctx.workers * 6) or 1)))
         ltr = 0
         for (n, calls, evals, txn, nontriv, outcomes, viols, taint) in res:
@@ -808,10 +898,54 @@ def run(ctx):
         if nxt:
             last_level = nxt
         level = nxt
+    # ---- second, smaller BFS: FILE-backed journal with the `reopen` operation
+    from mc.world import TmpDir
+    fdepth = 4 if ctx.quick else 5
+    mem_tr = tot["tr"]
+    seen_f = {m_key(m_init())}
+    level = [((), m_init(), frozenset())]
+    FULL_ALL = True
+    tmp = TmpDir()
+    _TMP["dir"] = tmp.path
+    try:
+        for dpt in range(1, fdepth + 1):
+            items, nxt = [], []
+            for seq, state, pend in level:
+                newidx = []
+                for idx, op in enumerate(m_enabled(state, FILE2)):
+                    s2, inf = m_step(state, op)
+                    p2 = m_pending(pend, op, inf)
+                    k = m_key(s2, p2)
+                    if k not in seen_f:
+                        seen_f.add(k)
+                        newidx.append(idx)
+                        if dpt < fdepth:
+                            nxt.append((seq + (op,), s2, p2))
+                items.append((seq, frozenset(newidx), FILE2))
+            res = ctx.pmap(_expand, items, chunk=max(1, min(32, len(items) // (ctx.workers * 6) or 1)))
+            ltr = 0
+            for (n, calls, evals, txn, nontriv, outcomes, viols, taint) in res:
+                ltr += n
+                tot["taint"] += taint
+                tot["tr"] += n
+                tot["calls"] += calls
+                tot["evals"] += evals
+                tot["nontriv"] += nontriv
+                ctx.outcomes.update(tuple(o) for o in outcomes)
+                ctx.merge_violations(viols)
+            per_level.append({"depth": dpt, "journal": "file + reopen", "new_states": len(nxt) if dpt < fdepth else None,
+                              "transitions": ltr, "sessions": "2 (mirror pair only)", "observation": "full"})
+            level = nxt
+    finally:
+        _TMP["dir"] = None
+        tmp.cleanup()
+    ctx.count(file_backed_states=len(seen_f), file_backed_transitions=tot["tr"] - mem_tr)
+    seen = list(seen) + [b"F" + k for k in seen_f]
     ctx.count(states=len(seen), transitions=tot["tr"], traces=tot["tr"], evaluations=tot["evals"],
               nontrivial=tot["nontriv"], journaler_calls=tot["calls"], duplicate_left_open_transaction=tot["txn"],
               transitions_not_judged_because_prefix_diverged=tot["taint"])
-    ctx.bounds = {"depth": depth, "sessions": [list(s) for s in session_ids(NAMES)], "numbers": NUMS,
+    ctx.bounds = {"depth": depth, "file_backed_depth": fdepth, "file_backed_numbers": F_NUMS,
+                  "file_backed_set_and_store_seq_num_values": [str(v) for v in F_VALS], "sessions": [list(s) for s in session_ids(NAMES)], "numbers": NUMS,
                   "set_values": [str(v) for v in SETVALS], "store_seq_num_values": [str(v) for v in SSEQVALS], "int_bound_grid": GRID, "string_bounds": [list(b) for b in STR_BOUNDS],
                   "lookups": LOOKUPS, "payload_variants": 2, "per_level": per_level}
     ctx.sample({"sequence": [["open", 0], ["store", 0, OUT, 1, 0], ["list"]], "meaning": "store(s, direction 1=out/0=in, n, payload variant)"})
@@ -823,7 +957,8 @@ def run(ctx):
                          "transaction that is neither committed nor rolled back); invisible through the public methods of the "
                          "same in-memory Journaler" % tot["txn"])
     ctx.assumptions += [
-        "in-memory journals (filename None); durability / crash behaviour is C08",
+        "in-memory journals (filename None) for the main exploration, file journals with clean reopen (object dropped, no "
+        "crash) for the second one; durability under crashes is C08",
         "handles are freshly loaded by CompIDs before each store/set; with next_num_* = None set_seq_num keeps the handle's "
         "value (pinned by test_seq_set), which for a fresh handle is the stored counter; stale handles are not explored",
         "payloads are frames built by the independent reference encoder; the number is the header's tag 34",
@@ -836,5 +971,5 @@ def run(ctx):
 
 
 def replay(ctx, rep):
-    vs, _ = run_case(tuple(rep["names"]), rep["ops"], rep.get("full", True))
+    vs, _ = run_case(tuple(rep["names"]), rep["ops"], rep.get("full", True), rep.get("file", False))
     return vs
